@@ -141,9 +141,9 @@ def conditions_at(fn, node):
     return out
 
 
-def resolve_local(fn, e, depth=3):
+def resolve_local(fn, e, depth=3, only=None):
     """``e`` with every local name that is bound by exactly one plain assignment in ``fn`` (also as one element of a
-    tuple-to-tuple assignment) replaced by its definition."""
+    tuple-to-tuple assignment) replaced by its definition; ``only(definition)`` restricts which locals are written out."""
     import copy
     defs = {}
     for n in ast.walk(fn):
@@ -159,7 +159,7 @@ def resolve_local(fn, e, depth=3):
                 for x in ast.walk(tg):
                     if isinstance(x, ast.Name):
                         defs.setdefault(x.id, []).extend([None, None])
-    single = {k: v[0] for k, v in defs.items() if len(v) == 1 and v[0] is not None}
+    single = {k: v[0] for k, v in defs.items() if len(v) == 1 and v[0] is not None and (only is None or only(v[0]))}
 
     class R(ast.NodeTransformer):
         def __init__(self, d):
